@@ -317,6 +317,41 @@ func ruleTranslate(c *Ctx) {
 			}
 			return true
 		})
+		// ... and the translation has happened by then: with a translator present,
+		// no path reaches a resolve call without passing the PluginToHost assignment
+		if ok && bad == "" {
+			g := p.Graph(f)
+			isTr := func(m *Node) bool {
+				if m.Ast == nil {
+					return false
+				}
+				for _, call := range callsIn(m.Ast) {
+					if strings.HasSuffix(p.CalleeName(f, call), "/runner.AddrTranslator.PluginToHost") {
+						return true
+					}
+				}
+				return false
+			}
+			noTranslator := func(e *Edge) bool {
+				at, isAt := edgeAtom(info, e)
+				if !isAt || at.Kind != "nil" || at.Op != token.EQL {
+					return false
+				}
+				t := info.TypeOf(at.X)
+				return t != nil && strings.HasSuffix(t.String(), "runner.AddrTranslator")
+			}
+			seen := g.Reach([]*Node{g.Entry}, isTr, noTranslator)
+			for m := range seen {
+				if m.Ast == nil {
+					continue
+				}
+				for _, call := range callsIn(m.Ast) {
+					if nm := p.CalleeName(f, call); nm == "net.ResolveTCPAddr" || nm == "net.ResolveUnixAddr" {
+						bad = "the address is resolved on a path on which PluginToHost has not run yet (the translation comes too late to have an effect)"
+					}
+				}
+			}
+		}
 		if ok && bad == "" {
 			c.R.Hold("R-ID/translate", p.Pos(f.Node()), f.Name, "translated network and address are what is resolved", "the switch tag and the resolved address are the results of PluginToHost", true)
 		} else {
@@ -923,8 +958,17 @@ func ruleRunnerKill(c *Ctx) {
 		kills := func(m *Node) bool {
 			for _, call := range callsIn(m.Ast) {
 				switch p.CalleeName(f, call) {
-				case "os.Process.Kill", "os.Process.Signal":
+				case "os.Process.Kill":
 					return true
+				case "os.Process.Signal":
+					// only the signal that cannot be caught or ignored counts (Serve
+					// deliberately swallows interrupts)
+					if len(call.Args) == 1 {
+						switch objFullName(objOfExpr(info, call.Args[0])) {
+						case "os.Kill", "syscall.SIGKILL":
+							return true
+						}
+					}
 				}
 			}
 			return false
@@ -1084,6 +1128,45 @@ func ruleMuxOnlyGRPC(c *Ctx) {
 	}
 	if n == 0 {
 		c.R.Undecided("R-SIB/switch", f.Name, "server muxer", "no call of grpcmux.NewGRPCServerMuxer found in Serve")
+		return
+	}
+	// the muxer that wraps the listener is the one the gRPC server (and through
+	// it the broker) is given: same variable, by identity
+	var muxVar *types.Var
+	for _, call := range f.Calls() {
+		if p.CalleeName(f, call) == modPath+"/internal/grpcmux.NewGRPCServerMuxer" {
+			muxVar = assignedVar(p, info, call)
+		}
+	}
+	given := false
+	nLit := 0
+	ast.Inspect(f.Body, func(x ast.Node) bool {
+		cl, ok := x.(*ast.CompositeLit)
+		if !ok {
+			return true
+		}
+		if t := info.TypeOf(cl); t == nil || !strings.HasSuffix(t.String(), "go-plugin.GRPCServer") {
+			return true
+		}
+		nLit++
+		for _, el := range cl.Elts {
+			if kv, ok := el.(*ast.KeyValueExpr); ok {
+				if k, ok := kv.Key.(*ast.Ident); ok {
+					if fv, isF := info.Uses[k].(*types.Var); isF && p.FieldName(fv) == "GRPCServer.muxer" && muxVar != nil && identObj(info, kv.Value) == muxVar {
+						given = true
+					}
+				}
+			}
+		}
+		return true
+	})
+	if nLit == 0 {
+		c.R.Undecided("R-SIB/switch", f.Name, "server muxer handed to the gRPC server", "no GRPCServer literal found in Serve")
+	} else if given {
+		c.R.Hold("R-SIB/switch", p.Pos(f.Node()), f.Name, "server muxer handed to the gRPC server", "GRPCServer{muxer: v} with the variable that NewGRPCServerMuxer was assigned to", true)
+	} else {
+		c.R.Violate("R-SIB/switch", p.Pos(f.Node()), f.Name, "server muxer handed to the gRPC server",
+			"the multiplexer that wraps the plugin's listener is not the value stored in GRPCServer.muxer (a different or shadowed variable): the listener is multiplexed but the server's broker believes multiplexing is off, so main calls work and every brokered connection times out", nil)
 	}
 }
 
